@@ -305,7 +305,19 @@ def run_one(seed, preset=None, tier="quick", want_case=False):
 
         sch = pick_scheduler(cfgt)
         loop = SimLoop(tape.sub("sched"), sch[0], sch[1], "mixed")
-        type_names = list(schema.types) + ["Int", "String", "NopeType", "__Type", "Query"]
+        # introspection is served by the same executor as everything else: the concurrency options are varied here too
+        ot_ = tape.sub("engopts")
+        engine_opts = {}
+        if ot_.chance(50):
+            engine_opts["coerce_parent_concurrently"] = ot_.choose([False, True])
+        if ot_.chance(50):
+            engine_opts["coerce_list_concurrently"] = ot_.choose([False, True])
+        first = next(iter(schema.types))
+        # names that are NOT names of the schema although they resemble one
+        unknown_names = ["NopeType", first + "\\n", first + " ", " " + first, first.lower() if first.lower() != first else first.upper(),
+                         "[%s]" % first, first + "!", "", first + "\\n\\n", "@deprecated", "deprecated", first + "\\t"]
+        unknown_names = [n for n in unknown_names if n not in schema.types and n not in ("Int", "String", "Query")]
+        type_names = list(schema.types) + ["Int", "String", "__Type", "Query"] + unknown_names
         META_Q = ("{ __schema { __typename queryType { __typename fields(includeDeprecated: true) { __typename args { __typename type { __typename } } "
                   "type { __typename ofType { __typename } } } } directives { __typename args { __typename } } "
                   "types { __typename name enumValues(includeDeprecated: true) { __typename } inputFields { __typename } interfaces { __typename } "
@@ -328,7 +340,7 @@ def run_one(seed, preset=None, tier="quick", want_case=False):
                 if td.kind == "SCALAR" and td.custom:
                     Scalar(td.name, schema_name=name)(XStr() if td.custom == "xstr" else XNum())
             await asyncio.sleep(0)
-            return await create_engine(supplies[mode], schema_name=name, sdl_file_encoding=file_encoding)
+            return await create_engine(supplies[mode], schema_name=name, sdl_file_encoding=file_encoding, **engine_opts)
 
         async def ask(mode, engine, label, text):
             await loop.point(("ask", mode, label))
@@ -501,9 +513,9 @@ def run_one(seed, preset=None, tier="quick", want_case=False):
                 else:
                     for i, n in enumerate(type_names):
                         v = tr["data"].get("t%d" % i)
-                        if n == "NopeType":
+                        if n in unknown_names:
                             if v is not None:
-                                viol.append(V("unknown_type_not_null", "[%s] __type(name: \"NopeType\") is %r" % (mode, v)))
+                                viol.append(V("unknown_type_not_null", "[%s] __type(name: %r) is %r" % (mode, n, v)))
                             continue
                         if n in got:
                             d = diff_dict(norm_type(v), got[n])
